@@ -9,6 +9,7 @@ CONSTANTS
   BugStaleInit <- MCBugStaleInit
   BugRelinkDrop <- MCBugRelinkDrop
   BugNoRepub <- MCBugNoRepub
+  BugStaleChan <- MCBugStaleChan
   WSet <- MCWSet
   Gen = TRUE
 VIEW View
